@@ -1,0 +1,162 @@
+//! Verification hook (only compiled under `--cfg audunhalland_entrait_verif`).
+//!
+//! Records the `(attr, input, output | panic)` triple of every outermost macro invocation as one
+//! JSON line appended to the file named by `ENTRAIT_VERIF_DUMP`. Purely observational: the
+//! expansion is computed by the unmodified `invoke` and returned (or its panic resumed) as is.
+
+use std::cell::Cell;
+use std::io::Write;
+use std::panic::{catch_unwind, resume_unwind, AssertUnwindSafe};
+
+use proc_macro::TokenStream;
+
+thread_local! {
+    static ACTIVE: Cell<bool> = const { Cell::new(false) };
+    static VARIANT: Cell<&'static str> = const { Cell::new("") };
+}
+
+pub fn set_variant(name: &'static str) {
+    VARIANT.with(|v| v.set(name));
+}
+
+/// Returns true when this is the outermost entry into `invoke` on this thread.
+pub fn enter() -> bool {
+    ACTIVE.with(|a| !a.replace(true))
+}
+
+pub fn record(
+    attr: TokenStream,
+    input: TokenStream,
+    invoke: impl FnOnce(TokenStream, TokenStream) -> TokenStream,
+) -> TokenStream {
+    let dump = std::env::var_os("ENTRAIT_VERIF_DUMP");
+    let strings = dump.as_ref().map(|_| {
+        (
+            (attr.to_string(), tree(attr.clone())),
+            (input.to_string(), tree(input.clone())),
+        )
+    });
+
+    let result = catch_unwind(AssertUnwindSafe(|| invoke(attr, input)));
+    ACTIVE.with(|a| a.set(false));
+
+    if let (Some(path), Some(((attr, attr_tt), (input, input_tt)))) = (dump, strings) {
+        let span = proc_macro::Span::call_site();
+        let mut line = String::from("{");
+        field(&mut line, "variant", VARIANT.with(|v| v.get()));
+        line.push(',');
+        field(&mut line, "file", &span.file());
+        line.push_str(&format!(",\"line\":{},\"col\":{},", span.line(), span.column()));
+        field(&mut line, "attr", &attr);
+        line.push(',');
+        field(&mut line, "input", &input);
+        line.push_str(",\"attr_tt\":");
+        line.push_str(&attr_tt);
+        line.push_str(",\"input_tt\":");
+        line.push_str(&input_tt);
+        line.push(',');
+        match &result {
+            Ok(output) => {
+                field(&mut line, "output", &output.to_string());
+                line.push_str(",\"output_tt\":");
+                line.push_str(&tree(output.clone()));
+            }
+            Err(payload) => {
+                let msg = if let Some(s) = payload.downcast_ref::<&str>() {
+                    s.to_string()
+                } else if let Some(s) = payload.downcast_ref::<String>() {
+                    s.clone()
+                } else {
+                    String::from("<non-string panic payload>")
+                };
+                field(&mut line, "panic", &msg)
+            }
+        }
+        line.push_str("}\n");
+        if let Ok(mut file) = std::fs::OpenOptions::new()
+            .create(true)
+            .append(true)
+            .open(path)
+        {
+            let _ = file.write_all(line.as_bytes());
+        }
+    }
+
+    match result {
+        Ok(output) => output,
+        Err(payload) => resume_unwind(payload),
+    }
+}
+
+/// The token stream exactly as the proc-macro API presents it, as nested JSON arrays:
+/// `["i", ident]`, `["p", char, joint]`, `["l", literal]`, `["g", delimiter, [..]]`.
+fn tree(stream: TokenStream) -> String {
+    use proc_macro::{Delimiter, Spacing, TokenTree};
+
+    let mut out = String::from("[");
+    for (index, token) in stream.into_iter().enumerate() {
+        if index > 0 {
+            out.push(',');
+        }
+        match token {
+            TokenTree::Ident(ident) => {
+                out.push_str("[\"i\",");
+                string(&mut out, &ident.to_string());
+                out.push(']');
+            }
+            TokenTree::Punct(punct) => {
+                out.push_str("[\"p\",");
+                string(&mut out, &punct.as_char().to_string());
+                out.push_str(match punct.spacing() {
+                    Spacing::Joint => ",1]",
+                    Spacing::Alone => ",0]",
+                });
+            }
+            TokenTree::Literal(literal) => {
+                out.push_str("[\"l\",");
+                string(&mut out, &literal.to_string());
+                out.push(']');
+            }
+            TokenTree::Group(group) => {
+                out.push_str("[\"g\",");
+                string(
+                    &mut out,
+                    match group.delimiter() {
+                        Delimiter::Parenthesis => "(",
+                        Delimiter::Brace => "{",
+                        Delimiter::Bracket => "[",
+                        Delimiter::None => "",
+                    },
+                );
+                out.push(',');
+                out.push_str(&tree(group.stream()));
+                out.push(']');
+            }
+        }
+    }
+    out.push(']');
+    out
+}
+
+fn field(out: &mut String, key: &str, value: &str) {
+    out.push('"');
+    out.push_str(key);
+    out.push_str("\":");
+    string(out, value);
+}
+
+fn string(out: &mut String, value: &str) {
+    out.push('"');
+    for c in value.chars() {
+        match c {
+            '"' => out.push_str("\\\""),
+            '\\' => out.push_str("\\\\"),
+            '\n' => out.push_str("\\n"),
+            '\r' => out.push_str("\\r"),
+            '\t' => out.push_str("\\t"),
+            c if (c as u32) < 0x20 => out.push_str(&format!("\\u{:04x}", c as u32)),
+            c => out.push(c),
+        }
+    }
+    out.push('"');
+}
